@@ -10,7 +10,7 @@ ID = "C14"
 LEVEL = "fault_enumeration"
 BUDGET = {"quick": 55, "thorough": 900}
 QUICK_CASES = 1300  # generator items in the quick tier (fixed amount of work; BUDGET is then only a safety cap)
-FLOOR = {"quick": 400, "thorough": 3000}
+FLOOR = {"quick": 400, "thorough": 400}  # conclusive cases below which a run is inconclusive (the thorough tier is time-budgeted: same floor)
 TIMEOUT = 90
 REQUIRED_OBS = ["graphs", "tasks_created", "callbacks_added", "callbacks_run", "cancel_points_injected", "waits_checked", "executor_calls", "registry_checks", "inner_service_calls"]
 RULE = (
